@@ -5,6 +5,42 @@ import Sigc.Lemmas.SpecKPrim2
 namespace Sigc.SpecK
 open Sigc.Model Sigc.Spec
 
+/-! ## functor-owned signal objects (`ownedG`), `dropHandle` -/
+
+/-- "is the signal object named `g` owned by a functor" is answered alike -/
+theorem Q.ownedG_any {ρ : IdRel} {t u : LSt} (h : Q ρ t u) (g : Nat) :
+    u.ownedG.any (fun p => decide (p.2 = g)) = t.ownedG.any (fun p => decide (p.2 = g)) :=
+  (F2.any h.ownedG _ _ (fun a b _ _ hr => by rw [hr.2])).symm
+
+/-- the signal object named `g` is destroyed in both configurations (the non-refusing part of `delG`) -/
+theorem dropHandle_sim {ρ : IdRel} {t u : LSt} (h : Q ρ t u) (g : Nat) :
+    Sim0 ρ t u (Spec.dropHandle t g) (Spec.dropHandle u g) := by
+  unfold Spec.dropHandle
+  have hG := h.G.get g
+  generalize aget t.G g = x at hG
+  generalize aget u.G g = y at hG
+  cases hG with
+  | none => exact Sim0.refl h
+  | @some hd hd' hh =>
+    simp only [hh.fl]
+    have h1 : Sim0 ρ t u (if hd.fl.isTrackable = true then Spec.invalidateTrackable t hd.trk else t)
+        (if hd.fl.isTrackable = true then Spec.invalidateTrackable u hd'.trk else u) := by
+      split
+      · exact invalidateTrackable_sim h hh.trk
+      · exact Sim0.refl h
+    generalize (if hd.fl.isTrackable = true then Spec.invalidateTrackable t hd.trk else t) = t1 at h1
+    generalize (if hd.fl.isTrackable = true then Spec.invalidateTrackable u hd'.trk else u) = u1 at h1
+    have h2 : Q ρ { t1 with G := adel t1.G g } { u1 with G := adel u1.G g } :=
+      { h1.q with G := h1.q.G.del g }
+    have h2' : Sim0 ρ t u { t1 with G := adel t1.G g } { u1 with G := adel u1.G g } :=
+      ⟨h2, h1.fr.trans (Fr.of_eq rfl rfl), h1.nk, h1.np⟩
+    have himp := hh.impl
+    generalize hd.impl = a at himp
+    generalize hd'.impl = b at himp
+    cases himp with
+    | none => exact h2'
+    | some him => exact h2'.trans (gcSig_sim h2 him)
+
 /-! ## `collect` -/
 
 theorem collectStep_sim {ρ : IdRel} {t u : LSt} (h : Q ρ t u) :
@@ -36,7 +72,33 @@ theorem collectStep_sim {ρ : IdRel} {t u : LSt} (h : Q ρ t u) :
     generalize t.ownedK.find? _ = x at hK
     generalize u.ownedK.find? _ = y at hK
     cases hK with
-    | none => exact Or.inl ⟨rfl, rfl⟩
+    | none =>
+      simp only
+      have hGf := F2.find h.ownedG (fun p => !Spec.heldK t p.1) (fun p => !Spec.heldK u p.1)
+        (fun a b _ _ hr => by simp only [h.heldK hr.1])
+      generalize t.ownedG.find? _ = x at hGf
+      generalize u.ownedG.find? _ = y at hGf
+      cases hGf with
+      | none => exact Or.inl ⟨rfl, rfl⟩
+      | @some a b hab =>
+        right
+        obtain ⟨k, g⟩ := a
+        obtain ⟨k', g'⟩ := b
+        obtain ⟨hk, hg⟩ := hab
+        simp only at hk hg ⊢
+        subst hg
+        refine ⟨_, _, rfl, rfl, ?_⟩
+        have h1 : Q ρ { t with ownedG := t.ownedG.filter (fun q => q.1 ≠ k) }
+            { u with ownedG := u.ownedG.filter (fun q => q.1 ≠ k') } :=
+          { h with ownedG := F2.filter h.ownedG _ _ (fun a b _ _ hr => by
+              have := h.pb.eq_iff hr.1 hk
+              by_cases e : a.1 = k
+              · simp [e, this.mp e]
+              · have e' : ¬ b.1 = k' := fun x => e (this.mpr x)
+                simp [e, e']) }
+        have h2 := dropHandle_sim h1 g
+        exact ⟨h2.q, (Fr.of_eq rfl rfl : Fr t { t with ownedG := t.ownedG.filter (fun q => q.1 ≠ k) }).trans h2.fr,
+          h2.nk, h2.np⟩
     | @some a b hab =>
       right
       obtain ⟨k, p⟩ := a
@@ -73,7 +135,7 @@ theorem collectN_sim {ρ : IdRel} (n : Nat) : ∀ {t u : LSt}, Q ρ t u →
 
 theorem collect_sim {ρ : IdRel} {t u : LSt} (h : Q ρ t u) : Sim0 ρ t u (Spec.collect t) (Spec.collect u) := by
   unfold Spec.collect
-  rw [← h.ownedT.length, ← F2.length h.ownedK]
+  rw [← h.ownedT.length, ← F2.length h.ownedK, ← F2.length h.ownedG]
   exact collectN_sim _ h
 
 /-! ## `specTaint`, `mkFun` -/
@@ -178,10 +240,12 @@ theorem mkFun_sim {ρ : IdRel} {t u : LSt} (h : Q ρ t u) (isVoid : Bool) (spec 
     cases hG with
     | none => exact .err _
     | @some hd hd' hr =>
-      simp only [hr.fl]
+      simp only [hr.fl, h.ownedG_any g]
       split
       · exact .err _
-      · refine .ok ρ (.fwd hr.obj ?_) { h with G := AR.set h.G g ⟨hr.obj, rfl, hr.impl, hr.trk, hr.lvl, rfl⟩ }
+      · split
+        · exact .err _
+        refine .ok ρ (.fwd hr.obj ?_) { h with G := AR.set h.G g ⟨hr.obj, rfl, hr.impl, hr.trk, hr.lvl, rfl⟩ }
           (Step.of_eq rfl rfl) (Fr.of_eq rfl rfl)
         split
         · exact F2.single hr.trk
@@ -210,6 +274,25 @@ theorem mkFun_sim {ρ : IdRel} {t u : LSt} (h : Q ρ t u) (isVoid : Bool) (spec 
       exact .ok (ext ρ t.next u.next) (.owner fid .nil (F2.single hn))
         { hq with K := hq.K.del k, ownedK := .cons ⟨hn, hr.imp (ext_sub _ _ _)⟩ hq.ownedK }
         ((Step.fresh ρ t u).congr rfl rfl rfl rfl) (Fr.of_eq rfl rfl)
+  | ownG fid g =>
+    simp only [Spec.mkFun]
+    have hG := h.G.get g
+    generalize aget t.G g = x at hG
+    generalize aget u.G g = y at hG
+    cases hG with
+    | none => exact .err _
+    | @some hd hd' hr =>
+      simp only [hr.fl, hr.everFwd, h.ownedG_any g]
+      split
+      · exact .err _
+      · split
+        · exact .err _
+        · simp only [LSt.fresh]
+          have hq := h.fresh
+          have hn : ext ρ t.next u.next t.next u.next := ext_new _ _ _
+          exact .ok (ext ρ t.next u.next) (.owner fid .nil (F2.single hn))
+            { hq with ownedG := .cons ⟨hn, rfl⟩ hq.ownedG }
+            ((Step.fresh ρ t u).congr rfl rfl rfl rfl) (Fr.of_eq rfl rfl)
   | bad => exact .err _
 
 end Sigc.SpecK
